@@ -125,3 +125,11 @@ Qed.
 Lemma string_fires_iff_doc s o : inv s -> op_wf o -> ptr_ok o ->
   (step s o = Contract <-> pre_doc (zlen (contents s)) (cap s) o = false).
 Proof. intros I W P. rewrite <- (pre_ok_is_doc s o I). apply string_fires_iff; assumption. Qed.
+
+(* against the standard's preconditions: outside the recorded defect region (pos > str.size() in append / assign /
+   constructor (str, pos, count)) nothing changes *)
+Lemma string_fires_iff_std s o : inv s -> op_wf o -> ptr_ok o -> substr_pos_ok o = true ->
+  (step s o = Contract <-> pre_std (zlen (contents s)) (cap s) o = false).
+Proof.
+  intros I W P S. unfold pre_std. rewrite S, Bool.andb_true_r. apply string_fires_iff_doc; assumption.
+Qed.
